@@ -139,7 +139,10 @@ def run_subcheck(sub, ctx, known, tier, checkpoint=None):
             state["violation"] = (v, case)
             raise
 
-    share = sub.examples // ctx.nworkers + (1 if ctx.worker < sub.examples % ctx.nworkers else 0)
+    # (sensitivity runs against mutants use a fraction of the examples and no shrinking)
+    scale = float(os.environ.get("VERIF_EXAMPLES_SCALE", "1"))
+    nexamples = max(ctx.nworkers, int(sub.examples * scale)) if sub.examples else 0
+    share = nexamples // ctx.nworkers + (1 if ctx.worker < nexamples % ctx.nworkers else 0)
     if sub.cases is not None:
         # Deterministic enumeration, sharded over the workers.
         for case in sub.cases(ctx):
@@ -163,7 +166,8 @@ def run_subcheck(sub, ctx, known, tier, checkpoint=None):
     for rnd in range(MAX_ROUNDS):
         if remaining <= 0:
             break
-        phases = [Phase.generate, Phase.shrink] if sub.shrink else [Phase.generate]
+        phases = [Phase.generate, Phase.shrink] if sub.shrink and not os.environ.get(
+            "VERIF_NO_SHRINK") else [Phase.generate]
         before = rec.evaluations
 
         @seed((ctx.seed * 1000003 + ctx.worker * 101 + rnd * 7 + sub.seed_salt) % (2**63))
